@@ -40,18 +40,24 @@ def gen_batch(rng):
     return [example(i) for i in range(bs)], lens
 
 
-def to_impl(d):
+def to_impl(d, late_mask=False):
+    """`late_mask`: the masked tensors are built without a mask (all valid) and invalidated afterwards by editing the public `.mask` in place — the same content, another history"""
     import torch
     from pose_format.torch.masked import MaskedTensor
     if "masked" in d:
         m = d["masked"]
-        return MaskedTensor(torch.tensor(np.array(m["data"], dtype=np.float32).reshape(m["shape"])), torch.tensor(np.array(m["mask"], dtype=bool).reshape(m["shape"])))
+        t, mk = torch.tensor(np.array(m["data"], dtype=np.float32).reshape(m["shape"])), torch.tensor(np.array(m["mask"], dtype=bool).reshape(m["shape"]))
+        if late_mask:
+            mt = MaskedTensor(t)
+            mt.mask[...] = mk
+            return mt
+        return MaskedTensor(t, mk)
     if "plain" in d:
         return torch.tensor(np.array(d["plain"]["data"], dtype=np.float32).reshape(d["plain"]["shape"]))
     if "int" in d: return d["int"]
     if "str" in d: return d["str"]
-    if "dict" in d: return {k: to_impl(v) for k, v in d["dict"]}
-    if "tuple" in d: return tuple(to_impl(v) for v in d["tuple"])
+    if "dict" in d: return {k: to_impl(v, late_mask) for k, v in d["dict"]}
+    if "tuple" in d: return tuple(to_impl(v, late_mask) for v in d["tuple"])
     raise ValueError(d)
 
 
@@ -166,7 +172,9 @@ def run(ctx):
         ctx.count("lengths:" + ",".join(map(str, sorted(set(lens))))); ctx.count("batch_size:%d" % len(batch))
         if len(ctx.samples) < 2:
             ctx.sample({"lengths": lens, "kind": next(iter(batch[0]))})
-        objs = [to_impl(d) for d in batch]
+        late = rng.random() < 0.3
+        ctx.count("masks set after construction" if late else "masks given to the constructor")
+        objs = [to_impl(d, late) for d in batch]
         before = [canon_datum(o) for o in objs]
         try:
             res = ("ok", canon(zero_pad_collator(objs)))
